@@ -6,7 +6,7 @@ from ..common import Names, rat, run_impl, canon_ballots
 from . import c01
 
 PROP = "C03"
-LEAN_MODULE = "VK.Props.C03Sample"
+LEAN_MODULE = "VK.Check.C03"
 THEOREMS = [
     "VK.C03_no_winner",
     "VK.C03_order",
@@ -27,6 +27,7 @@ THEOREMS = [
     "VK.kernel_transfer_value_used",
     "VK.sampleK_mass",
     "VK.C03_sample_inclusion",
+    "VK.kernel_random_sample_size",
 ]
 RULE = ("cases = (a) direct calls of fractional_transfer / random_transfer on ballot lists with duplicates, bullet votes "
         "(exhausting), ballots not led by the winner, ballots listing the winner lower down, 20% with tied lower "
